@@ -115,6 +115,9 @@ RollbackOne(m, st) ==
   IN IF st.fp.ren /\ st.final # st.target
      THEN [m1 EXCEPT ![st.final] = [u EXCEPT !.cells = <<>>, !.deleted = st.undo.nDel, !.mode = st.undo.nMode],
                      ![st.target] = [m1[st.target] EXCEPT !.cells = u.cells, !.deleted = st.undo.tDel, !.mode = u.mode]]
+     \* a "rename" onto its own name (the source does not exist, so the new name was chosen as target): the
+     \* content is moved out of and back into the same record, which ends up with the source's previous status
+     ELSE IF st.fp.ren THEN [m1 EXCEPT ![st.final] = [u EXCEPT !.deleted = st.undo.tDel]]
      ELSE m1
 
 -----------------------------------------------------------------------------
